@@ -57,6 +57,12 @@ HARNESS.update({
     'u9_rand_gen_bytes_bounded16': _h(['C18'], False, 'len <= 16; ' + _RND, 'source.rs: gen_bytes (Rand)', ['C18', 'C09']),
 })
 
+HARNESS.update({
+    'u7_as_u8_all_kinds': _h(['C04', 'C05'], True, 'all 68 opcode kinds', 'src/opcodes.rs: OpcodeKind::as_u8', ['C04', 'C09']),
+    'u7_tables_exact': _h(['C05', 'C12'], True, 'all protocols 0..=5, concrete static tables, the real phf lookup',
+                          'src/opcodes.rs: PICKLE_OPCODES', ['C05', 'C09']),
+})
+U7 = ['u7_as_u8_all_kinds', 'u7_tables_exact']
 U8_QUICK = [n for n in HARNESS if n.startswith('u8_') and 'typeconfusion' not in n]
 U8_THOROUGH = [n for n in HARNESS if n.startswith('u8_typeconfusion')]
 U9_QUICK = [n for n in HARNESS if n.startswith('u9_') and n != 'u9_rand_choose_index_bounded_2p16']
@@ -156,10 +162,10 @@ PROPS.update({
         claim='Unbounded proof (any memo size, any mutator outcome for the index) that GET-family indices are defined, PUT-family indices are fresh, and no PUT executes on MARK/empty stack.',
         note=_NOTE, assumptions=_CORE_ASSUME),
     'C05': dict(
-        title='Only opcodes of the requested protocol, right header', verus=['core'], level='proof',
+        title='Only opcodes of the requested protocol, right header', verus=['core'], kani_quick=U7, level='proof',
         technique='Verus contracts: candidate set within the protocol table, emitted opcode in the chosen family and protocol, collapse-phase opcodes in protocol, PROTO header clause of generate_internal',
         claim='Proof that every opcode recorded in the trace (body and collapse tail) was introduced in protocol <= P, PROTO P is the first two bytes iff P >= 2.',
-        note=_NOTE + ' Table content is assumed in Verus (Kani table harness pending); the protocol-0 7-bit-ASCII clause for payload bytes is not covered yet.',
+        note=_NOTE + ' Table content is assumed in Verus and proved exactly equal to the CPython vocabulary by the Kani harness u7_tables_exact; the protocol-0 7-bit-ASCII clause for payload bytes is not covered yet.',
         assumptions=_CORE_ASSUME),
     'C06': dict(
         title='FRAME unique, leads the body, spans exactly the rest', verus=['core'], kani_thorough=U8_THOROUGH, level='proof',
@@ -168,6 +174,17 @@ PROPS.update({
               'Unsafe mode: the rewrite never touches bytes before the current emission (Kani, bounded) and the length is patched after all rewrites.',
         note=_NOTE + ' The unsafe-mode half rests on the Kani frame clause plus inspection of generate_internal (its Verus contract requires safe mode).',
         assumptions=_CORE_ASSUME),
+    'C07': dict(
+        title='Generation is a pure function of configuration and entropy input', verus=['core'], scans=['purity'], level='proof',
+        technique='Verus contract: memo key enumeration is canonical whatever order the hash map yields (sorted, unique); mechanical purity scan of the library sources; functional determinism of the verified functions',
+        claim='Proof that the only order-dependent library call whose result can reach the output (HashMap key enumeration at the three GET sites) is '
+              'canonicalised before use (for ANY enumeration order the chosen-from vector equals the unique ascending sequence of the key set), plus a '
+              'mechanical scan showing no other source of nondeterminism (OS randomness, clocks, thread/process identity, mutable globals, address-dependent '
+              'values, hash-order iteration) occurs in the library outside whitelisted, justified sites.',
+        note=_NOTE + ' The thread/process/schedule quantifier is discharged by a frame argument (a Generator owns all its state; the library has no shared mutable '
+             'state: scan), not by exploration. main.rs batch mode under rayon is outside every contract (by inspection: one fresh Generator per index).',
+        assumptions=_CORE_ASSUME + ['exec functions verified by Verus are deterministic functions of their arguments and of the results of the external functions they call',
+                                    'rayon batch mode in main.rs is not covered (outside any function boundary a contract can be put on)']),
     'C08': dict(
         title='Generator reuse: each call independent of earlier calls', verus=['core'], level='proof',
         technique='Verus contracts: reset() postcondition and a generate_internal postcondition that mentions the old state only through its configuration',
@@ -194,7 +211,6 @@ PROPS.update({
 
 NOT_APPLICABLE = {
     'C04': 'check under construction in this session',
-    'C07': 'check under construction in this session',
     'C12': 'check under construction in this session',
     'C13': 'front ends (main.rs clap/rayon/filesystem, bash wrapper, PyO3/Python) have no function boundary a contract can be put on and no deductive verifier here accepts them (DESIGN.md section 7)',
     'C14': 'heap reachability through Rc<RefCell<..>> cycles: no contract within reach of Verus (cell model has no heap) or Kani (recursive drop glue does not terminate in CBMC) can express or decide it (DESIGN.md section 7)',
